@@ -9,17 +9,25 @@ ALL = ["C%02d" % i for i in range(1, 21)]
 
 CHECKS = {
     "C01": dict(
-        text="Coq theorems (no axioms) over an interleaving small-step model of registry.go and fAdapterTransport.Request (callers, their send "
+        text="Coq theorems (no axioms) over an interleaving small-step model of registry.go and Request of BOTH transports built on it (a transport-kind "
+             "parameter: adapter; NATS with the IsOpen / empty-frame / Register-error / oversize-after-Register / publish-error / time.After paths and "
+             "the status-503 routing of fNatsTransport.handler) (callers, their send "
              "goroutines, the clock and the single reader, cut where they touch shared state), for ALL accepted event sequences - any number "
              "of callers, any interleaving, any arrival sequence (permutations, duplicates, late frames, op ids never issued): a request "
              "completes successfully only with a frame carrying its own op id; frames for unregistered op ids leave the state unchanged; frames "
              "for requests that already left their select change nobody's outcome (bisimulation); a request completes at most once; when all "
-             "returned the registry is empty; with distinct op ids, registered iff in flight. Tie: a scheduling harness parks the real goroutines "
-             "at verif yield points and at a scripted transport, walks randomly over the events the IMPLEMENTATION offers, and every logged "
-             "event with its observed effect is replayed on the model inside Coq; plus a direct oracle.",
+             "returned the registry is empty; with distinct op ids, registered iff in flight; every returned frame is one that reached dispatch "
+             "(provenance); NATS: a 503 for one op id changes only the channel of the request registered under it, SERVICE_NOT_AVAILABLE is reported "
+             "only after a 503 for the request's own op id, a Register error changes nothing else, and with ANY op ids (shared FContexts) a request "
+             "in flight owns its registration; the registry's lock discipline is decided on data regenerated from registry.go each build. Tie: a "
+             "scheduling harness parks the real goroutines at verif yield points, walks randomly over the events the IMPLEMENTATION offers - on the "
+             "adapter (scripted transport) AND on fNatsTransport against an embedded NATS server (responses, duplicates, unknown ids, late frames, "
+             "503s from the harness and from the server, discarded messages, empty/oversize/malformed-op-id requests, shared FContexts, publish "
+             "errors, closed transport) - and every logged event with its observed effect is replayed on the model inside Coq; plus a direct oracle.",
         note="Trusted: Coq kernel + vm_compute; harness/controller as test equipment; sync.RWMutex and Go channel semantics assumed; distinct op ids from C17. "
-             "The NATS transport shares registry and Request structure; its inbox path is exercised by C05/C12/C13, the schedules here run on the adapter transport.",
-        technique="Coq interleaving model + invariant and bisimulation proofs + controlled-schedule trace validation (yield hooks) + direct oracle",
+             "Embedded NATS server assumed to deliver each message once, in publication order, to the inbox subscription; one callback goroutine per "
+             "subscription; the empty frame is encoded as content tag -1 (over-approximation). A schedule that looks hung is re-run alone with 5x wait bounds before it is believed.",
+        technique="Coq interleaving model + invariant and bisimulation proofs + controlled-schedule trace validation (yield hooks) on adapter and NATS transports + direct oracle",
         design="5/C01"),
     "C02": dict(
         text="Coq theorems over every environment, type and value: round trip of the TBinary encoding directed by the declared type; exact "
@@ -72,7 +80,8 @@ CHECKS = {
         text="Coq theorems (no axioms) over the same interleaving model as C01: in EVERY state the single reader has an enabled step (hand over "
              "or drop the frame it looked up, or accept the next frame) with no premise about any caller, so slow, timed-out or abandoned "
              "requests and any number of duplicates cannot stall it; the response of an in-flight request with an empty channel is delivered "
-             "and taken regardless of all other requests; a frame is dropped only when its target already holds a frame with the same op id. The "
+             "and taken regardless of all other requests; a frame is dropped only when its target already holds a frame with the same op id (both transports; NATS: the "
+             "idle reader also accepts any status 503; a 503 for a waiting request is delivered and yields SERVICE_NOT_AVAILABLE). The "
              "pinned tree's blocking dispatch is refuted: a reachable state from which, along every continuation, no frame is ever looked up or "
              "delivered again. Tie: as C01, with adversarial schedules (several frames for one op id while its caller is held between result and "
              "unregister); a reader that does not return from the channel send within 1 s, or a fresh request not served within 1 s, is a violation.",
@@ -156,8 +165,10 @@ CHECKS = {
     "C13": dict(
         text="Partial proof. Coq theorems (no axioms) over the C01 model and the FContext timeout arithmetic: a caller waiting in its select with "
              "a deadline can ALWAYS take the timeout branch, whatever the send goroutine (blocked write or flush), the reader and other callers "
-             "do, and that step touches nothing else; the reported outcome is TIMED_OUT exactly when that branch was taken; a finished request "
-             "leaves no registration behind; every positive timeout is stored as at least one millisecond, hence has a deadline. Wall-clock "
+             "do, and that step touches nothing else; the reported outcome is TIMED_OUT exactly when that branch was taken; no registration "
+             "is left on ANY exit path of either transport (NATS: not open, empty frame, Register error incl. malformed op id, oversize detected after "
+             "Register, publish error, timeout with no deadline flag, 503, result) - also without distinct op ids; NATS outcome classification incl. "
+             "SERVICE_NOT_AVAILABLE iff empty frame; a malformed op id registers nothing (defect repaired: 3037cad); every positive timeout is stored as at least one millisecond, hence has a deadline. Wall-clock "
              "punctuality is MEASURED, not proved: Request/Oneway on the adapter, NATS and HTTP transports against silent / late / "
              "write-blocked / flush-blocked peers must return within timeout + 150 ms with TIMED_OUT and an empty registry. Logic tied to the "
              "code by the same controlled-schedule trace validation as C01 (short timeouts, send failures).",
